@@ -27,7 +27,7 @@ def graph_cases(draw, tier):
     return {"graph": graph, "queries": [list(q) for q in queries],
             "matrix_dtype": draw(st.sampled_from(["int64", "int64", "uint8", "bool", "int32", "uint16", "float64", "int8",
                                                   "int16"])),
-            "verbose": draw(st.integers(0, 3)) == 0, "layout": draw(st.sampled_from([None, None, "F", "strided"])),
+            "verbose": draw(st.integers(0, 3)) == 0, "layout": draw(st.sampled_from([None, None, "F", "strided", "readonly"])),
             "maximum_length": draw(st.sampled_from([None, None, None, 1, 3, 0]))}
 
 
@@ -105,6 +105,7 @@ def evaluate_graph(case):
                        % (dtype, k, typed), labels)
         labels += ["matrix", "matrix_dtype:" + dtype]
 
+    map_before = [(int(key), [int(x) for x in values]) for key, values in latter_map.items()]
     for v, depth in case["queries"]:
         want = leaf_multiset(rows, k, v, depth)
         for name, kwargs in (("accessor", {"accessor": acc}), ("latter_map", {"latter_map": latter_map})):
@@ -116,6 +117,11 @@ def evaluate_graph(case):
             labels.append("leaf_duplicates")
     if not numpy.array_equal(numpy.asarray(acc), snapshot):
         return bad("a conversion modified the accessor", labels)
+    map_after = [(int(key), [int(x) for x in values]) for key, values in latter_map.items()]
+    if map_after != map_before:
+        return bad("after the leaf queries %r the latter map no longer lists exactly the vertices with arcs and their "
+                   "successors: entries %r appeared or changed (k=%d)"
+                   % (case["queries"], [e for e in map_after if e not in map_before][:4], k), labels)
     # the caller edits its latter map in place (as remove_nasty_arc does) and asks again
     if latter_map and case["queries"]:
         victim = sorted(latter_map)[case["queries"][0][0] % len(latter_map)]
